@@ -58,9 +58,17 @@ def run(tier, seed, replay):
     k = 0
     for a in range(0, len(hists), per):
         cfg = variants[(a // per) % len(variants)]
-        sp = common.mk_spec(k, [cfg], keep_out=True)
+        files = [cfg]
+        if k % 2:
+            # the documented workflow: a base file and an environment overlay that both spell out `todo` with different values
+            # (the later file wins: the merged configuration is cfg)
+            first = json.loads(json.dumps(cfg))
+            db_todo = bool(cfg["services"]["db"].get("todo"))
+            first["services"]["db"] = {"todo": False, "constructor": "NewA"} if db_todo else {"todo": True}
+            files = [first, {"services": {"db": {"todo": True} if db_todo else {"todo": False, "constructor": "NewA"}}}]
+        sp = common.mk_spec(k, files, keep_out=True)
         sp["cfg"] = cfg
-        sp["what"] = ["todo/override"]
+        sp["what"] = ["todo/override" + ("/two-files" if k % 2 else "")]
         specs.append(sp)
         # a probe process has ONE container: run the histories of this group back to back; later histories see earlier overrides,
         # which is just a longer history
